@@ -41,6 +41,11 @@ func runC01(r *engine.Run) {
 	r.Rule("AGREE-setters", "see C14: the node constructors and setters store every parameter they are given (the walks hand over the right arguments; a constructor that drops one builds another node)")
 	r.Rule("DOM-valueat", "in insertAtNode a value is stored on a newly built branch only where the key it belongs to ends there: the payload where matching prefix == path tested true, the split leaf's value where matching prefix == leaf path tested true or the leaf's path is empty")
 	r.Rule("WHO-tombstones", "see C03: no lookup of the layered store consults its delete tombstones (a lookup that answered from them would hide a node the level, or the level below, still holds)")
+	r.Rule("CLONE-deep", "see C07: Clone() of every node type is a deep copy (the codec round trip), never a value that shares path/key/value memory with the receiver - FRESH-node treats Clone() results as fresh, and an in-place append onto a shallow copy writes into the store's object")
+	r.Rule("WHO-limit", "see C17: the value size limit MPTMaxAllowableNodeSize is applied to the inserted value only (in Insert or its guard helper): a value Insert accepted gives a node that every store and decoder takes whole - a decoder that cuts its input at the same constant loses the tail of a node whose value is close to the limit, and the lookup returns a truncated or no value")
+	r.Rule("LOCK-mpt", "see C16: root, the stores' maps and level links and the collector's maps are accessed only with their owner's mutex held in the required mode")
+	r.Rule("ORDER-critical", "see C16: Insert, Delete, MergeChanges and MergeDB are one critical section each")
+	r.Rule("LOCK-walk", "see C16: every node fetch of a walk that starts at the trie's root happens with the trie's mutex held - a lookup that releases the lock before it walks down reads nodes a writer has meanwhile replaced and removed, and reports a stored path as absent")
 	r.NotDec = append(r.NotDec, "that lookups return the last stored value for every history (path arithmetic, slicing, which child is lifted)", "hex validation of Insert/Delete paths (outside the property's quantifier)")
 	exhU(r)
 	domSize(r)
@@ -64,6 +69,9 @@ func runC01(r *engine.Run) {
 	domChildCount(r, "DOM-childcount")
 	agreeSetters(r, "AGREE-setters")
 	whoTombstones(r, "WHO-tombstones")
+	cloneDeep(r)
+	whoLimit(r, "WHO-limit")
+	lockWalk(r, mptLockDiscipline(r))
 }
 
 var nodeKinds = []string{"ExtensionNode", "FullNode", "LeafNode"}
@@ -199,7 +207,20 @@ func exhU(r *engine.Run) {
 					missing = append(missing, "*"+k)
 				}
 			}
-			if len(missing) > 0 {
+			noResult := true
+			if sig := engine.TopFunc(f).Signature; sig != nil {
+				for i := 0; i < sig.Results().Len(); i++ {
+					if !isErrorType(sig.Results().At(i).Type()) {
+						noResult = false
+					}
+				}
+			}
+			_, fallthru := armOK(d.last)
+			if len(missing) > 0 && noResult && !endsInPanic(fallthru) {
+				// a walk that computes nothing per node (a survey, a printer): a kind without an
+				// arm is skipped exactly like a kind with an empty arm
+				r.OK(rule, construct+"|arms", pos, "no arm for "+strings.Join(missing, ", ")+": skipped like an empty arm (the function computes no result and the fall-through does not panic)")
+			} else if len(missing) > 0 {
 				r.Fail(rule, construct+"|arms", pos, "no arm for "+strings.Join(missing, ", ")+": that node kind falls into the default / is silently skipped")
 			} else {
 				r.OK(rule, construct+"|arms", pos, "arms for *LeafNode, *FullNode, *ExtensionNode")
